@@ -108,6 +108,7 @@ type env struct {
 	failSet map[int]bool
 	panicK bool
 	up     bool
+	failNF bool // the failing handler returns an error wrapping datastore.ErrNotFound
 }
 
 func newEnv(t *testing.T, c cfg, img map[string][]byte) *env {
@@ -165,6 +166,10 @@ func (e *env) open() error {
 			}
 			c.Out = "err"
 			e.calls = append(e.calls, c)
+			if e.failNF {
+				// a handler that cleans up its own datastore and reports what that datastore said
+				return fmt.Errorf("handler: removing data of %d: %w", h, ds.ErrNotFound)
+			}
 			return errors.New("scripted handler failure")
 		}
 		e.calls = append(e.calls, c)
@@ -467,7 +472,8 @@ func (e *env) doOp(op map[string]any, idx int, v variant, skipWait, last bool) (
 			for _, f := range ints(op["failSet"]) {
 				e.failSet[f] = true
 			}
-			e.panicK = (idx+ev.FailAt)%2 == 1
+			e.panicK = (idx+ev.FailAt)%3 == 1
+			e.failNF = (idx+ev.FailAt)%3 == 2
 			ctx, cancel := context.WithTimeout(bg, time.Hour)
 			if mbt.Str(op, "fk") == "timeout" && ev.FailAt != 0 {
 				// the caller's deadline is placed so that 95% of it has elapsed exactly when deleteSingle reaches failAt:
@@ -687,6 +693,25 @@ func runOnce(t *testing.T, id int, c map[string]any, cacheSz int, v variant, bas
 			}
 		}
 		baseLog = e.rs.Log()
+		// restart epilogue: every behaviour ends with a clean Stop and a Start over the same datastore; the two
+		// events carry no model prediction and are judged by the property layer only (a clean restart reports the
+		// same Head, Tail and headers; C04 holds on the reopened store).
+		panicked := len(events) > 0 && events[len(events)-1].Res == "panic"
+		if !panicked && v.failOp < 0 && os.Getenv("VH_NOEPILOGUE") == "" {
+			n := len(hist)
+			for _, name := range []string{"stop", "start"} {
+				if name == "stop" && !e.up {
+					continue
+				}
+				ev := e.doOp(map[string]any{"op": name}, id+n, v, false, false)
+				ev.Tr, ev.I, ev.Cfg = id, n, cfgName(cf)+","+v.name+",epilogue"
+				n++
+				events = append(events, ev)
+				if ev.Res != "ok" {
+					break
+				}
+			}
+		}
 		_ = e.stop()
 		synctest.Wait()
 	})
